@@ -49,7 +49,9 @@ def build(rec, r, wd, depth, maxdepth, uniq, dupname=None):
     for i in range(r.choice([0, 1, 2])):
         pl[r.choice(NAMES) + uniq + str(i)] = G.rhex(r)
     if dupname and (depth == maxdepth or r.random() < 0.5):
-        pl[dupname] = G.rhex(r, 7)
+        # the same name at several levels: unrelated bytes, identical bytes, a strict prefix, or empty
+        base = "a1b2c3d4e5f60718"
+        pl[dupname] = r.choice([G.rhex(r, 7), base, base, base[:r.choice([2, 8, 14])], "", base + "ff"])
     if pl:
         e["suit-integrated-payloads"] = pl
     embed = {}
@@ -200,10 +202,10 @@ def case_cache(rec, case):
     try:
         if dup_expected:
             rec.count("cache:duplicate-name-across-levels")
-            if exc is None:
-                rec.violation("extract-duplicate-name-merged", "the same payload name is extracted from two levels but "
-                              "the operation succeeded (one payload was overwritten or lost)", full)
-            return
+            if exc is not None:
+                return          # refused: nothing is merged or lost
+            # accepted: then every one of the equally named payloads must still be conserved (checked below)
+            rec.count("cache:duplicate-name-accepted")
         if problems:
             rec.count("cache:non-envelope-selected-as-dependency")
             if exc is not None:
@@ -242,6 +244,15 @@ def case_cache(rec, case):
         cache_map = {}
         for k, b in pairs:
             cache_map.setdefault(k, []).append(b)
+        if dup_expected:
+            # equally named payloads: distinct contents must each be present; identical contents may share one entry
+            for name in set(uris):
+                wanted = {b for (k, b) in extracted if k == name}
+                have = set(cache_map.get(name, []))
+                if wanted - have:
+                    rec.violation("extract-duplicate-name-lost", f"payload name {name!r} occurs at several levels; "
+                                  f"{len(wanted - have)} of the {len(wanted)} distinct contents are neither in the cache "
+                                  "nor left in the envelope", full)
         for (path, name), data in in_str.items():
             if data is None:
                 if (path, name) not in out_str:
@@ -251,6 +262,8 @@ def case_cache(rec, case):
             in_env = 1 if out_str.get((path, name), b"\0missing") == data else 0
             in_cache = sum(1 for b in cache_map.get(name, []) if b == data)
             where = in_env + in_cache
+            if dup_expected and name in uris:
+                where = 1 if where >= 1 else 0      # sharing one cache entry between identical payloads is fine
             if where != 1:
                 rec.violation("extract-payload-lost" if where == 0 else "extract-payload-duplicated",
                               f"{path}/{name}: found in {where} places (envelope {in_env}, cache {in_cache})", full)
